@@ -4,4 +4,6 @@ package main
 
 import "math/rand/v2"
 
-func graftWork(rc *recorder, rng *rand.Rand, scale int) { rc.r.HookMissing("strobe graft (Keccak permutation)") }
+func graftWork(rc *recorder, rng *rand.Rand, scale int) {
+	rc.r.HookMissing("strobe graft (Keccak permutation)")
+}
